@@ -1069,9 +1069,9 @@ GROUP = Group(
         '(single step proved as lemma prefix_step)',
     ],
     trusted=[],
-    not_covered=['media_requests.py:208 applies origin_time to the stored tfdt and :212 writes sequence_number: handler '
-                 'lines outside any contract; the served decode time equals the proved start only if the stored tfdt of '
-                 'segment m is t0 + S(m-1) and t0 == 0',
+    not_covered=['generate_media_segment is under contract for the listed variants (live/vod x number/time x audio/video, missing tfdt, '
+                 'fix-ups, range + corruption); the served decode time equals the proved start only if the stored tfdt of '
+                 'segment m is t0 + S(m-1) (what Representation.load establishes, group load)',
                  'generateSegmentTimeline run-length list (see evidence of the timeline contract when present)'],
 )
 GROUP.callees = [DT_GROUP.TIMEDELTA_TO_TIMECODE, DT_GROUP.SCALE_TIMEDELTA, DT_GROUP.TIMECODE_TO_TIMEDELTA]
